@@ -38,6 +38,9 @@ pub(crate) enum Ev {
     Dup(usize),
     Tick,
     Restart,
+    /// the peer's tip grows by one block and the announcement overtakes the answers that are
+    /// still pending (the full node announced before it served the request)
+    GrowFirst(usize),
 }
 
 #[derive(Clone)]
@@ -61,6 +64,10 @@ struct Track {
     switches: u32,
     /// the documented long-fork abort happened (terminal state)
     aborted: bool,
+    /// headers for which the client was GIVEN a proof (the last header of a delivered non-empty
+    /// SendLastStateProof) or the announcement of a child of such a header - kept by the model
+    /// from the messages, independent of what the client believes to have proven
+    proof_delivered: std::collections::HashSet<packed::Byte32>,
 }
 
 pub(crate) struct TipModel<'a> {
@@ -82,6 +89,28 @@ pub(crate) struct TipModel<'a> {
 const FORK_AT: u64 = 11;
 
 impl<'a> TipModel<'a> {
+    fn note_delivery(&self, data: &[u8]) {
+        let msg = match packed::LightClientMessageReader::from_slice(data) {
+            Ok(m) => m.to_entity(),
+            Err(_) => return,
+        };
+        let mut t = self.track.borrow_mut();
+        match msg.to_enum() {
+            packed::LightClientMessageUnion::SendLastStateProof(p) => {
+                if !p.headers().is_empty() || !p.proof().is_empty() {
+                    t.proof_delivered.insert(p.last_header().header().calc_header_hash());
+                }
+            }
+            packed::LightClientMessageUnion::SendLastState(m) => {
+                let h = m.last_header().header();
+                if t.proof_delivered.contains(&h.raw().parent_hash()) {
+                    t.proof_delivered.insert(h.calc_header_hash());
+                }
+            }
+            _ => {}
+        }
+    }
+
     fn chains(&self) -> [&Chain; 2] {
         [&self.main, &self.fork]
     }
@@ -206,6 +235,15 @@ impl<'a> Model for TipModel<'a> {
             }
         }
         let (td, tip, _, _) = Self::stored(&sim);
+        {
+            // (the start states are honest-only histories: what the client holds as proven there
+            // is what the peers proved)
+            let mut t = self.track.borrow_mut();
+            t.proof_delivered.insert(tip.clone());
+            for (_, ps) in sim.c().peers.get_all_prove_states() {
+                t.proof_delivered.insert(ps.get_last_header().header().hash());
+            }
+        }
         self.track.borrow_mut().prev = Some((td, tip));
         sim
     }
@@ -231,6 +269,9 @@ impl<'a> Model for TipModel<'a> {
                     if ps.height + k <= sim.world.chains[ps.chain].tip_number() - 22 {
                         v.push(Ev::Grow(p, k));
                     }
+                }
+                if sim.queue.iter().any(|m| m.peer == p) && ps.height + 1 <= sim.world.chains[ps.chain].tip_number() - 22 {
+                    v.push(Ev::GrowFirst(p));
                 }
             }
             if t.switches < 2 && p != 1 {
@@ -263,6 +304,9 @@ impl<'a> Model for TipModel<'a> {
                 if let Some(i) = sim.queue.iter().position(|m| m.peer == *p) {
                     let m = sim.queue.remove(i).unwrap();
                     self.track.borrow_mut().last_delivered.insert(*p, m.clone());
+                    if m.proto == Proto::LightClient {
+                        self.note_delivery(&m.data);
+                    }
                     sim.deliver_msg(m);
                 }
             }
@@ -300,8 +344,23 @@ impl<'a> Model for TipModel<'a> {
                 self.track.borrow_mut().dups += 1;
                 let m = self.track.borrow().last_delivered.get(p).cloned();
                 if let Some(m) = m {
+                    if m.proto == Proto::LightClient {
+                        self.note_delivery(&m.data);
+                    }
                     sim.deliver_msg(m);
                 }
+            }
+            Ev::GrowFirst(p) => {
+                self.track.borrow_mut().grows += 1;
+                let (chain, height) = {
+                    let ps = sim.world.peer(*p);
+                    (ps.chain, ps.height + 1)
+                };
+                sim.set_view(*p, chain, height, false);
+                let m = sim.world.view(*p).send_last_state();
+                let m = InFlight { proto: Proto::LightClient, peer: *p, data: m.as_bytes(), note: format!("SendLastState({}) [overtaking]", height) };
+                self.note_delivery(&m.data);
+                sim.deliver_msg(m);
             }
             Ev::Tick => {
                 self.track.borrow_mut().ticks += 1;
@@ -371,6 +430,9 @@ impl<'a> Model for TipModel<'a> {
                 let proven_by_someone = sim.c().peers.get_all_prove_states().iter().any(|(_, ps)| ps.get_last_header().header().hash() == tip);
                 if !proven_by_someone {
                     bad.push(("tip-moved-to-unproven-header".into(), format!("tip moved to #{} {:#x} which is no peer's proven header", number, tip)));
+                }
+                if !self.track.borrow().proof_delivered.contains(&tip) {
+                    bad.push(("tip-moved-to-a-header-nobody-proved".into(), format!("tip moved to #{} {:#x}: no proof with that last header and no announcement of a child of a proven header was ever delivered", number, tip)));
                 }
             } else if ptd != td {
                 bad.push(("difficulty-changed-for-same-tip".into(), format!("stored difficulty changed {:#x} -> {:#x} for the same tip", ptd, td)));
@@ -469,6 +531,7 @@ fn parse_ev(s: &str) -> Option<Ev> {
         "Dup" => Ev::Dup(*a.first()? as usize),
         "Tick" => Ev::Tick,
         "Restart" => Ev::Restart,
+        "GrowFirst" => Ev::GrowFirst(*a.first()? as usize),
         _ => return None,
     })
 }
@@ -641,6 +704,7 @@ pub(crate) fn debug_case() {
                 "Dup" => Ev::Dup(args[0] as usize),
                 "Tick" => Ev::Tick,
                 "Restart" => Ev::Restart,
+                "GrowFirst" => Ev::GrowFirst(args[0] as usize),
                 other => panic!("unknown event {}", other),
             }
         })
